@@ -123,7 +123,7 @@ impl Subject for SList {
         Some(o)
     }
     fn validate_op(s: &LSt, op: &Self::Op) -> Result<(), String> {
-        s.validate_op(op).map_err(|e| format!("{e:?}"))
+        s.validate_op(op).map_err(|e| render_dot_range(&e))
     }
 }
 
